@@ -415,7 +415,11 @@ def check(pid, tier, seed=None, replay=None, workers=None, budget_s=None):
   shutil.rmtree(workdir, ignore_errors=True)
   if reported:
     return 1
-  if harness_error or nres == 0:
+  nrej = sum(1 for r in results if r["status"] == "rejected")
+  if nrej:
+    print(f"[{pid}] {nrej} run(s) had their model refused by put_model (outside the accepted input space, counted as rejected)")
+  if harness_error or nres == 0 or nrej * 4 > nres:
+    # a batch in which put_model refuses more than a quarter of the generated models explores too little to be called a pass
     return 2
   return 0
 
